@@ -169,9 +169,9 @@ def run_scenario(scn, want_events=True, twin_fin=None):
                 DQ[t, j] = fn(Z[rows[t]].copy(), Z[qrow].copy())
     if not np.all(np.isfinite(D)) or not np.all(np.isfinite(DQ)):
         return None, ("skip", "non_finite_distance")
-    if np.any(D < 0) or np.any(DQ < 0):
+    if (np.any(D < 0) or np.any(DQ < 0)) and not scn.get("allow_asymmetric"):
         return None, ("skip", "negative_distance")
-    if not np.array_equal(D, D.T):
+    if not np.array_equal(D, D.T) and not scn.get("allow_asymmetric"):
         return None, ("skip", "float_matrix_not_bit_symmetric")
     # ---- rank everything observed
     rk = H.Ranker()
@@ -497,3 +497,66 @@ SYM_METRICS_UNDECORATED = [
     "hamming",
 ]
 POSITIVE_METRICS = ["hellinger", "matusita", "squared_chord", "canberra", "soergel", "bray_curtis", "chi_squared", "clark", "squared", "jensen_shannon", "topsoe", "jeffreys", "kulczynski", "sangvi", "divergence", "additive_symmetric", "jaccard", "dice", "hassanat", "vicis_wave_hedges", "vicis_symmetric1", "vicis_symmetric2", "vicis_symmetric3", "max_symmetric", "min_symmetric", "mean_censored_euclidean"]
+
+
+# ---------------------------------------------------------------------------------------------------
+# the forest an object holds after learn(): judged on the object's OWN node features and labels
+# ---------------------------------------------------------------------------------------------------
+def learn_traces(rng, count, metrics=("euclidean", "log_squared_euclidean", "manhattan")):
+    """Runs SupervisedOPF.learn on small overlapping sets and returns (scenario-like dict, trace) pairs in which the
+    training set is whatever the object's nodes hold afterwards (features, true labels); the training set is then
+    re-predicted (resubstitution).  The forest left by learn() is a supervised training result like any other."""
+    np = _np()
+    H.import_opfython()
+    import opfython.utils.constants as c
+    from opfython.models.supervised import SupervisedOPF
+
+    out = []
+    for i in range(count):
+        r = np.random.default_rng(rng.randrange(2**31))
+        nt, nv = rng.randrange(5, 12), rng.randrange(3, 8)
+        k = rng.choice([2, 2, 3])
+        sep = rng.choice([0.5, 1.0, 2.0])
+        yt = np.array([j % k for j in range(nt)])
+        yv = np.array([j % k for j in range(nv)])
+        Xt = r.normal(size=(nt, 2)) + sep * yt[:, None]
+        Xv = r.normal(size=(nv, 2)) + sep * yv[:, None]
+        met = rng.choice(list(metrics))
+        m = SupervisedOPF(distance=met)
+        iters = rng.choice([1, 1, 2, 3, 10])
+        np.random.seed(i)
+        scn = {"kind": "sup", "mode": "metric", "metric": met, "learn": True, "Xt": Xt.tolist(), "yt": yt.tolist(), "Xv": Xv.tolist(), "yv": yv.tolist(), "n_iterations": iters, "np_seed": i}
+        try:
+            m.learn(Xt.copy(), yt.copy(), Xv.copy(), yv.copy(), n_iterations=iters)
+            nodes = m.subgraph.nodes
+            n = len(nodes)
+            F = [np.array(nd.features, dtype=float).copy() for nd in nodes]
+            L = [int(nd.label) for nd in nodes]
+            res = [int(x) for x in m.predict(np.array(F))]
+        except Exception:
+            continue            # learn's own failure modes are C17's business
+        if len(set(L)) < 2:
+            continue
+        fn = m.distance_fn
+        D = np.array([[fn(F[a].copy(), F[b].copy()) if a != b else 0.0 for b in range(n)] for a in range(n)])
+        if not np.all(np.isfinite(D)) or not np.array_equal(D, D.T):
+            continue
+        costs = [float(nd.cost) for nd in nodes]
+        rk = H.Ranker()
+        rk.add_all(D.ravel())
+        rk.add_all(costs)
+        if rk.unrankable:
+            continue
+        rk.freeze()
+        u = sorted(set(L))
+        tr = {
+            "n": n, "nl": n, "W": [[rk(D[a, b]) if a != b else 0 for b in range(n)] for a in range(n)], "L": [u.index(v) + 1 for v in L], "ev": [], "mst": [0] * n,
+            "fin": {"cost": [rk(v) for v in costs], "pred": [int(nd.pred) + 1 for nd in nodes], "lab": [u.index(int(nd.predicted_label)) + 1 if int(nd.predicted_label) in u else 99 for nd in nodes],
+                    "proto": [a + 1 for a, nd in enumerate(nodes) if nd.status == c.PROTOTYPE], "order": [int(x) + 1 for x in m.subgraph.idx_nodes]},
+            "q": [{"dx": [rk(D[t, j]) for t in range(n)], "res": (u.index(res[j]) + 1 if res[j] in u else 99), "self": j + 1} for j in range(n)],
+        }
+        if any(not (1 <= o <= n) for o in tr["fin"]["order"]) or any(not (0 <= p_ <= n) for p_ in tr["fin"]["pred"]):
+            continue
+        tr["_extra"] = {}
+        out.append((scn, tr))
+    return out
